@@ -220,6 +220,12 @@ impl TupleSlice {
     ///
     /// If the bounds aren't valid with the current tuple slice, then `None` is returned.
     pub fn with_bounds(&self, bounds: Range<usize>) -> Option<Self> {
+        // The new bounds are relative to this slice and have to lie within it,
+        // checking them against the underlying data would allow a slice to grow past its end.
+        if bounds.start > bounds.end || bounds.end > self.bounds.len() {
+            return None;
+        }
+
         let new_bounds = (bounds.start + self.bounds.start)..(bounds.end + self.bounds.start);
 
         if self.data.get(new_bounds.clone()).is_some() {
